@@ -150,6 +150,9 @@ OuterLoop:
 					break ArgLoop
 				case 'p':
 					// Pointer address, new in Lua 5.4
+					if len(args) <= j {
+						return "", errNotEnoughValues
+					}
 					switch v := values[j]; v.Type() {
 					case rt.BoolType, rt.FloatType, rt.IntType, rt.NilType:
 						outFormat[i] = 's'
@@ -200,6 +203,10 @@ OuterLoop:
 					// Unrecognised verbs
 					return "", errors.New("invalid format string")
 				}
+			}
+			if i >= len(format) {
+				// The format string ends in the middle of a directive
+				return "", errors.New("invalid format string")
 			}
 			args[j] = arg
 			j++
